@@ -9,7 +9,10 @@
        ek em ea eb epos             edit kind 0 none 1 junk(a = component) 2 truncate(a = whole components kept,
                                     b = a partial one follows) 3 extend 4 drop 5 grow 6 duplicate 7 splice;
                                     em = message 1..3; epos = byte position (informational)
-       fk finit fclaim fsigk fsigm  forging endpoint: present?, is initiator?, claimed key 1..3 / 4 junk / 5 empty / 10*v + k: key k in the
+       fk finit fclaim fsigk fsigm  forging endpoint: present? (2 = present and, being the initiator, it ALSO puts a payload with its own
+                                    key and a good signature into message 1, where honest endpoints send none), is initiator?,
+                                    claimed key 1..3 / 4 junk / 5 empty / 6 = the WHOLE payload is zero-length (plain Noise XX, no libp2p
+                                    payload at all) / 7 = the payload is not a protobuf message / 10*v + k: key k in the
                                     non-canonical serialization v (1 unknown field appended, 2 fields reordered, 3 non-minimal varint),
                                     signer 1..3 / 4 junk / 5 empty, signed message 0 good 1 other static 2 no prefix
        pk pinit pstage pidx         a panic inside one endpoint's runHandshake: present?, in the initiator?, stage 0 = the
@@ -19,8 +22,11 @@
        per session:  clsI ridI rkidI  clsR ridR rkidR
                                     cls 0 = completed, 1..5 error class; rid = RemotePeer() as a key number
                                     (0 none/unknown), rkid = peer ID derived from RemotePublicKey() likewise
-   ktI/ktR (key types 0 Ed25519 1 ECDSA 2 Secp256k1 3 RSA) are not read by the model: the symbolic
-   model is uniform in the key type; the dimension is covered by the correspondence. *)
+   ktI/ktR = own key type (0 Ed25519 1 ECDSA 2 Secp256k1 3 RSA) + 10 * x, where x says of which key type the
+   identity is that this endpoint NAMES as expected peer: 0 = the remote endpoint's key type, 1..4 = key type
+   x-1 (the named identity is then E, held by nobody who answers), 5 = a string that is not a well-formed peer ID.
+   These two numbers are not read by the model: the symbolic model is uniform in the key type (peer IDs
+   are key numbers, whether the ID embeds the key or is its hash); the dimension is covered by the correspondence. *)
 From Coq Require Import List NArith ZArith Bool.
 From Verif Require Import lib.Wire c01.Model c01.ModelTLS.
 Import ListNotations.
@@ -147,10 +153,10 @@ Definition wf_edit (e : edit) : bool :=
   | _ => true
   end.
 Definition wf_forge (f : forge) : bool :=
-  match f_sig f with
-  | FsBy k m => idk_eqb k KE || (match m with SmOtherStatic => true | _ => false end)
-  | _ => true
-  end.
+  (match f_sig f with
+   | FsBy k m => idk_eqb k KE || (match m with SmOtherStatic => true | _ => false end)
+   | _ => true
+   end) && (negb (f_early f) || f_init f).      (* only the initiator writes message 1 *)
 (* a fault comes alone (no edit, no forging endpoint); an early-data handler
    exists only on a SessionTransport *)
 Definition wf_fault (sc : scenario) (f : fault) : bool :=
@@ -210,6 +216,7 @@ Definition alias_of_z (z : Z) : option alias :=
   else if z =? 3 then Some ANonMinimal else None.
 Definition claim_of (z : Z) : option claim :=
   if z =? 4 then Some ClJunk else if z =? 5 then Some ClEmpty
+  else if z =? 6 then Some ClNoPayload else if z =? 7 then Some ClNotProto
   else if 10 <=? z
        then match idk_of_z (z mod 10), alias_of_z (z / 10) with
             | Some k, Some a => Some (ClAlias k a)
@@ -225,7 +232,7 @@ Definition fsig_of (k m : Z) : option fsig :=
 Definition forge_of (fk finit fclaim fsigk fsigm : Z) : option (option forge) :=
   if fk =? 0 then Some None
   else match claim_of fclaim, fsig_of fsigk fsigm with
-       | Some c, Some s => Some (Some (mkForge (zbool finit) c s))
+       | Some c, Some s => Some (Some (mkForge (zbool finit) c s (fk =? 2)))
        | _, _ => None
        end.
 
